@@ -1,4 +1,5 @@
 import MontePyVerif.Model.Setter
+import MontePyVerif.Gen.GeometryProbe
 import MontePyVerif.Props.C06
 /-!
 # C14 — a rejected edit leaves the problem unchanged
@@ -39,10 +40,11 @@ theorem runSteps_no_raise {σ α : Type} (c : GenCtx σ α) :
     · exact ih h2 (c.assign s v) v
 
 /-- **C14_generated** — for every setter template whose statement list has every raising statement
-    before the first assigning one, for every property (`GenCtx`: any `types`, `base_type`,
-    validator, hidden attribute), every state and every argument: a rejected call returns the
-    state unchanged. -/
-theorem C14_generated {σ α : Type} (c : GenCtx σ α) :
+    before the first assigning one (the validator may do both, nothing may raise after it), for every
+    property (`GenCtx`: any `types`, `base_type`, hidden attribute) whose validator is all-or-nothing
+    by itself (`ValidatorAtomic`), every state and every argument: a rejected call returns the state
+    unchanged. -/
+theorem C14_generated {σ α : Type} (c : GenCtx σ α) (hv : ValidatorAtomic c) :
     ∀ (steps : List SetterStep), safeOrder steps = true →
       ∀ (s : σ) (v : α) (e : Err) (s' : σ), runSteps c steps s v = .err e s' → s' = s := by
   intro steps
@@ -50,32 +52,53 @@ theorem C14_generated {σ α : Type} (c : GenCtx σ α) :
   | nil => intro _ s v e s' h; simp [runSteps] at h
   | cons st rest ih =>
     intro hs s v e s' h
-    simp only [safeOrder] at hs
-    by_cases ha : stepAssigns st = true
-    · -- the first assigning statement: it does not raise, and nothing after it does
-      simp only [ha, if_true, Bool.and_eq_true] at hs
-      obtain ⟨hnr, hrest⟩ := hs
-      cases st <;> simp [stepAssigns] at ha <;> simp [stepRaises] at hnr
-      · simp only [runSteps] at h
-        obtain ⟨s2, h2⟩ := runSteps_no_raise c rest hrest (c.latch s) v
-        rw [h2] at h; cases h
-      · simp only [runSteps] at h
-        obtain ⟨s2, h2⟩ := runSteps_no_raise c rest hrest (c.assign s v) v
-        rw [h2] at h; cases h
-    · simp only [ha] at hs
-      have hs' : safeOrder rest = true := by simpa using hs
-      cases st <;> simp [stepAssigns] at ha <;> simp only [runSteps] at h
+    cases st with
+    | resolveTypes =>
+      have hs' : safeOrder rest = true := by simpa [safeOrder, stepAssigns] using hs
+      simp only [runSteps] at h
+      exact ih hs' s v e s' h
+    | fetch =>
+      have hs' : safeOrder rest = true := by simpa [safeOrder, stepAssigns] using hs
+      simp only [runSteps] at h
+      exact ih hs' s v e s' h
+    | latchTypes =>
+      have hrest : rest.all (fun t => !stepRaises t) = true := by
+        simpa [safeOrder, stepAssigns, stepRaises] using hs
+      simp only [runSteps] at h
+      obtain ⟨s2, h2⟩ := runSteps_no_raise c rest hrest (c.latch s) v
+      rw [h2] at h; cases h
+    | assign =>
+      have hrest : rest.all (fun t => !stepRaises t) = true := by
+        simpa [safeOrder, stepAssigns, stepRaises] using hs
+      simp only [runSteps] at h
+      obtain ⟨s2, h2⟩ := runSteps_no_raise c rest hrest (c.assign s v) v
+      rw [h2] at h; cases h
+    | isinstance =>
+      have hs' : safeOrder rest = true := by simpa [safeOrder, stepAssigns] using hs
+      simp only [runSteps] at h
+      split at h
       · exact ih hs' s v e s' h
-      · split at h
-        · exact ih hs' s v e s' h
-        · cases h; rfl
-      · split at h
-        · rename_i v' _; exact ih hs' s v' e s' h
-        · cases h; rfl
-      · split at h
-        · exact ih hs' s v e s' h
-        · cases h; rfl
-      · exact ih hs' s v e s' h
+      · cases h; rfl
+    | convert =>
+      have hs' : safeOrder rest = true := by simpa [safeOrder, stepAssigns] using hs
+      simp only [runSteps] at h
+      split at h
+      · rename_i v' _; exact ih hs' s v' e s' h
+      · cases h; rfl
+    | validate =>
+      -- the validator may have changed the state when it returns; then nothing can raise any more;
+      -- when it raises, it is all-or-nothing by hypothesis
+      have hrest : rest.all (fun t => !stepRaises t) = true := by
+        simpa [safeOrder, stepAssigns, stepRaises] using hs
+      simp only [runSteps] at h
+      split at h
+      · rename_i s1 _
+        obtain ⟨s2, h2⟩ := runSteps_no_raise c rest hrest s1 v
+        rw [h2] at h; cases h
+      · rename_i e1 s1 hval
+        cases h
+        exact hv s v _ _ hval
+    | other => simp [safeOrder, stepAssigns, stepRaises] at hs
 
 /-- the statement order found in `montepy/utilities.py` on this run satisfies the hypothesis -/
 theorem gen_orders_safe : safeOrder valNodeSteps = true ∧ safeOrder pointerSteps = true := by decide
@@ -83,18 +106,27 @@ theorem gen_orders_safe : safeOrder valNodeSteps = true ∧ safeOrder pointerSte
 /-- **C14_generated_code** — `C14_generated` instantiated with the two statement lists extracted from
     the working tree: a source edit that assigns (or latches `types`) before a check changes
     `Gen/SetterDecls.lean` and this proof no longer builds. -/
-theorem C14_generated_code {σ α : Type} (c : GenCtx σ α) (s : σ) (v : α) (e : Err) (s' : σ) :
+theorem C14_generated_code {σ α : Type} (c : GenCtx σ α) (hv : ValidatorAtomic c)
+    (s : σ) (v : α) (e : Err) (s' : σ) :
     (runSteps c valNodeSteps s v = .err e s' → s' = s) ∧
     (runSteps c pointerSteps s v = .err e s' → s' = s) :=
-  ⟨C14_generated c _ gen_orders_safe.1 s v e s', C14_generated c _ gen_orders_safe.2 s v e s'⟩
+  ⟨C14_generated c hv _ gen_orders_safe.1 s v e s', C14_generated c hv _ gen_orders_safe.2 s v e s'⟩
+
+/-- the validators of `declCtx` are pure checks -/
+theorem declCtx_atomic (d : SetterDecl) : ValidatorAtomic (declCtx d) := by
+  intro s v e s' h
+  simp only [declCtx] at h
+  split at h
+  · cases h
+  · cases h; rfl
 
 /-- **C14_generated_decl** — every extracted declaration, every object, every argument. -/
 theorem C14_generated_decl (d : SetterDecl) (s : GObj) (a : Atom) (e : Err) (s' : GObj)
     (h : genSetter d s a = .err e s') : s' = s := by
   unfold genSetter at h
   split at h
-  · exact (C14_generated_code (declCtx d) s a e s').2 h
-  · exact (C14_generated_code (declCtx d) s a e s').1 h
+  · exact (C14_generated_code (declCtx d) (declCtx_atomic d) s a e s').2 h
+  · exact (C14_generated_code (declCtx d) (declCtx_atomic d) s a e s').1 h
 
 def exDecl : SetterDecl where
   file := "montepy/cell.py"
@@ -130,7 +162,7 @@ theorem C14_generated_latch_refuted :
   let c : GenCtx (Nat × Option Nat) Nat :=
     { isInst := (fun _ _ => false)
       convert := (fun v => Except.ok v)
-      validate := (fun _ _ => Option.none)
+      validate := (fun s _ => Res.ok s)
       assign := (fun s v => (v, s.2))
       latch := (fun s => (s.1, some s.1)) }
   refine ⟨c, (7, none), 0, .typeError, (7, some 7), ?_, ?_⟩
@@ -254,6 +286,93 @@ theorem C14_equal_importance_loop (mode : List Nat) (v : Val) (vac : List Int) :
           obtain ⟨_, h2⟩ := ih e' t' ht
           rw [hnone] at h2
           cases h2
+
+def exCell (n : Int) : CellSt :=
+  { number := n, isAtomDens := false, density := some 10, imps := [(0, 1), (1, 1)], univ := 0,
+    notTruncated := false, fillMulti := false, fillUniverse := none, fillHasUniverses := false,
+    fillTransform := none, fillHidden := false, geometry := "-1", complements := [], surfaces := [1] }
+
+/-! ### the geometry validator: a two-phase commit over two containers -/
+
+/-- **C14_geometry_validator_atomic** — `HalfSpace._add_new_children_to_cell` (the validator behind the
+    `Cell.geometry` setter, `HalfSpace.left/right`, `&=`, `|=`), for every cell and every geometry tree:
+    if it raises — wrong kind of divider, number in use, number used twice among the new dividers, in
+    EITHER container — neither `cell.complements` nor `cell.surfaces` (nor anything else) has changed:
+    both containers are checked before the first divider is added to either. -/
+theorem C14_geometry_validator_atomic (c : CellSt) (leaves : List Leaf) (e : Err) (c' : CellSt)
+    (h : addNewChildren c leaves = .err e c') : c' = c := by
+  unfold addNewChildren at h
+  simp only [] at h
+  split at h
+  · cases h; rfl
+  · split at h
+    · cases h; rfl
+    · cases h
+
+theorem geomCtx_atomic : ValidatorAtomic geomCtx := by
+  intro s v e s' h
+  simp only [geomCtx] at h
+  split at h
+  · exact C14_geometry_validator_atomic _ _ _ _ h
+  · cases h
+
+/-- **C14_geometry_setter** — a rejected `cell.geometry = g` (wrong type, or rejected by the validator)
+    changes nothing: the generated-template theorem over the extracted statement order, with the
+    atomicity of the validator as its hypothesis. -/
+theorem C14_geometry_setter (v : Val) (c : CellSt) (e : Err) (c' : CellSt)
+    (h : cellGeometry v c = .err e c') : c' = c :=
+  (C14_generated_code geomCtx geomCtx_atomic c v e c').2 h
+
+def exGeomCell : CellSt := { exCell 9 with complements := [], surfaces := [2] }
+/-- `~cell1 & +copy_of_surface_2`: a new complement and a surface whose number the cell already uses -/
+def exGeomLeaves : List Leaf :=
+  [{ asCell := true, kind := .cell, num := 1, member := false, oid := 0 },
+   { asCell := false, kind := .surface, num := 2, member := false, oid := 1 }]
+
+/-- non-vacuity: the validator does reject (here in the SECOND container) and does accept -/
+example : (addNewChildren exGeomCell exGeomLeaves).isErr = true := by decide
+example : (addNewChildren exGeomCell (exGeomLeaves.take 1)).state.complements = [1] := by decide
+
+/-- **C14_geometry_per_container_refuted** — "one all-or-nothing `extend` per container" is NOT
+    all-or-nothing: with a new complement and a colliding surface the complements are already
+    extended when the surfaces raise (seeded change C14c; the code and `addNewChildren` check both first). -/
+theorem C14_geometry_per_container_refuted :
+    ¬ (∀ (c : CellSt) (leaves : List Leaf) (e : Err) (c' : CellSt),
+        addNewChildrenPerContainer c leaves = .err e c' → c'.complements = c.complements) := by
+  intro h
+  have h1 : (addNewChildrenPerContainer exGeomCell exGeomLeaves).state.complements = exGeomCell.complements := by
+    cases hr : addNewChildrenPerContainer exGeomCell exGeomLeaves with
+    | ok c' => exact absurd (show (addNewChildrenPerContainer exGeomCell exGeomLeaves).isErr = false by rw [hr]; rfl) (by decide)
+    | err e c' => exact h _ _ _ _ hr
+  revert h1
+  decide
+
+def kindOfCode : Nat → DivKind
+  | 0 => .cell
+  | 1 => .surface
+  | _ => .other
+
+def probeLeaf (t : Bool × Nat × Int × Bool × Nat) : Leaf :=
+  { asCell := t.1, kind := kindOfCode t.2.1, num := t.2.2.1, member := t.2.2.2.1, oid := t.2.2.2.2 }
+
+def errCode : Err → Nat
+  | .typeError => 1
+  | .numberConflict => 2
+  | _ => 3
+
+/-- does the model predict what the translator observed on the real `cell.geometry = g`? -/
+def probeAgrees (p : GeomProbe) : Bool :=
+  let c : CellSt := { exCell 9 with complements := p.complements, surfaces := p.surfaces }
+  match addNewChildren c (p.leaves.map probeLeaf) with
+  | .ok c' => p.outcome == 0 && c'.complements == p.complementsAfter && c'.surfaces == p.surfacesAfter
+  | .err e c' => p.outcome == errCode e && c'.complements == p.complementsAfter && c'.surfaces == p.surfacesAfter
+
+/-- **C14_geometry_probes** — the tie of the hand-written validator to the source: on every probe the
+    translator ran on the working tree (new complement + colliding surface copy, new surface + complement
+    of a colliding cell, wrong kind of divider behind a new complement, …) the model predicts the observed
+    exception class and the observed containers afterwards.  A validator that commits one container
+    before it has checked the other changes `Gen/GeometryProbe.lean` and this no longer builds. -/
+theorem C14_geometry_probes : geomProbes.all probeAgrees = true := by decide
 
 /-- **C14_each** — every modelled mutator, every state, every argument: if the call raises, the
     state at the raise point is the state before the call. -/
@@ -404,6 +523,15 @@ theorem C14_each (w : World) (op : Op) (e : Err) (w' : World) (h : step w op = .
     unfold fillTransform at h
     repeat' split at h
     all_goals first | (cases h; rfl) | cases h
+  | cellGeometry c v =>
+    exact onCells_err w c _ (fun c e c' h => C14_geometry_setter v c e c' h) e w' h
+  | geomChild c v =>
+    refine onCells_err w c _ ?_ e w' h
+    intro c e c' h
+    unfold geomChild at h
+    split at h
+    · exact C14_geometry_validator_atomic _ _ _ _ h
+    · cases h; rfl
   | displacement t v =>
     refine onTransforms_err w t _ ?_ e w' h
     intro c e c' h
@@ -448,11 +576,6 @@ theorem C14_then_valid (w : World) (pre : List Op) (op : Op) (post : List Op) (e
   rw [this]
 
 /-! ### non-vacuity and decision tables -/
-
-def exCell (n : Int) : CellSt :=
-  { number := n, isAtomDens := false, density := some 10, imps := [(0, 1), (1, 1)], univ := 0,
-    notTruncated := false, fillMulti := false, fillUniverse := none, fillHasUniverses := false,
-    fillTransform := none, fillHidden := false }
 
 def exWorld : World :=
   { mode := [0, 1], cells := [exCell 1, exCell 2, exCell 3],
